@@ -50,7 +50,9 @@ impl InstructionGenerator {
                 self.label(&labels::case_statements(case_block_index), pos);
             }
             // run matched CASE block statements
+            self.select_depth += 1;
             self.visit(statements);
+            self.select_depth -= 1;
             // jump out of SELECT
             self.jump(labels::end_select(), pos);
         }
@@ -59,7 +61,9 @@ impl InstructionGenerator {
     fn generate_else_block(&mut self, else_block: Option<Statements>, pos: Position) {
         if let Some(e) = else_block {
             self.label(labels::case_else(), pos);
+            self.select_depth += 1;
             self.visit(e);
+            self.select_depth -= 1;
         }
     }
 
